@@ -119,7 +119,10 @@ def gen_shape(rng, pool, allow_num=True):
     if u < 0.6:
         return {'k': 'kv', 'keys': keys, 'n': len(keys)}
     if u < 0.7:
-        return {'k': 'fkv', 'keys': keys, 'n': len(keys)}
+        sh = {'k': 'fkv', 'keys': keys, 'n': len(keys)}
+        if rng.random() < 0.3:
+            sh['keys_as'] = rng.choice(['list', 'list', 'nd'])
+        return sh
     if u < 0.8:
         return {'k': 'map', 'keys': keys, 'n': len(keys)}
     if u < 0.9:
